@@ -29,6 +29,7 @@ use smoltcp::phy::ChecksumCapabilities;
 use smoltcp::time::Duration;
 use smoltcp::wire::*;
 use std::hint::black_box;
+use std::result::Result;
 use std::sync::OnceLock;
 use vkit::runner::{guarded, key_matches, panic_in_smoltcp, panic_key, Fail, Part, PhaseResult, Prop, RunEnv, Tier};
 use vkit::{Ctx, Src};
@@ -114,7 +115,7 @@ fn any_ok<T, E>(rs: &[Option<Result<T, E>>]) -> Option<bool> {
 
 macro_rules! acc {
     ($b:ident, $p:ident; $($m:ident),* $(,)?) => {
-        $( $b.call(stringify!($m), || { black_box($p.$m()); }); )*
+        $( $b.call(stringify!($m), || { let _ = black_box($p.$m()); }); )*
     };
 }
 
@@ -197,7 +198,9 @@ pub struct Seed {
     fields: Vec<F>,
 }
 
-fn seed(name: &'static str, bytes: Vec<u8>, fields: Vec<F>) -> Seed {
+fn seed(name: &'static str, bytes: Vec<u8>, mut fields: Vec<F>) -> Seed {
+    // shared field lists may name fields a short seed does not have
+    fields.retain(|f| f.off + f.nbytes as usize <= bytes.len());
     Seed { name, bytes, fields }
 }
 
@@ -903,8 +906,1511 @@ fn run_tcpopt(b: &mut Bat, d: &[u8]) -> Out {
     }
 }
 
-//@@BATTERIES3@@
+fn run_dhcp(b: &mut Bat, d: &[u8]) -> Out {
+    let Some(Ok(p)) = b.call("new_checked", || DhcpPacket::new_checked(d)) else {
+        return Out::rejected();
+    };
+    acc!(b, p; opcode, hardware_type, hardware_len, transaction_id, client_hardware_address, hops, secs,
+        magic_number, client_ip, your_ip, server_ip, relay_agent_ip, flags);
+    b.call("get_sname", || p.get_sname().map(|s| s.len()));
+    b.call("get_boot_file", || p.get_boot_file().map(|s| s.len()));
+    let cap = d.len() + 1;
+    let looped = b.call("options", || {
+        let mut n = 0usize;
+        for o in p.options() {
+            black_box((o.kind, o.data.len()));
+            n += 1;
+            if n > cap {
+                return true;
+            }
+        }
+        false
+    });
+    if looped == Some(true) {
+        b.looped("dhcp:options:loop", "options()");
+    }
+    let r = b.call("Repr::parse", || DhcpRepr::parse(&p).map(|r| r.buffer_len()));
+    Out::accepted(any_ok(&[r]))
+}
 
-//@@SEEDS@@
+/// Drain a `parse_name` iterator like `socket::dns` does (stop at the first Err/None).
+/// Returns true if more labels came out than the buffer has bytes.
+fn drain_name<'a>(p: &'a DnsPacket<&'a [u8]>, bytes: &'a [u8], cap: usize) -> bool {
+    let mut n = 0usize;
+    for l in p.parse_name(bytes) {
+        match l {
+            Ok(x) => {
+                black_box(x.len());
+                n += 1;
+                if n > cap {
+                    return true;
+                }
+            }
+            Err(_) => break,
+        }
+    }
+    false
+}
 
-//@@TABLE@@
+fn run_dns(b: &mut Bat, d: &[u8]) -> Out {
+    let Some(Ok(p)) = b.call("new_checked", || DnsPacket::new_checked(d)) else {
+        return Out::rejected();
+    };
+    acc!(b, p; payload, transaction_id, flags, opcode, rcode, question_count, answer_record_count,
+        authority_record_count, additional_record_count);
+    let cap = d.len();
+    let mut parse_ok = None;
+    let mut looped = false;
+    // questions, then answer/authority/additional records, through the public API
+    let walked = b.call("Question/Record walk + parse_name", || {
+        let mut looped = false;
+        let mut first_q = None;
+        let mut rest: &[u8] = p.payload();
+        let mut broken = false;
+        for i in 0..p.question_count() {
+            match DnsQuestion::parse(rest) {
+                Ok((r, q)) => {
+                    if i == 0 {
+                        first_q = Some(true);
+                    }
+                    black_box(q.buffer_len());
+                    looped |= drain_name(&p, q.name, cap);
+                    rest = r;
+                }
+                Err(_) => {
+                    if i == 0 {
+                        first_q = Some(false);
+                    }
+                    broken = true;
+                    break;
+                }
+            }
+        }
+        if !broken {
+            let nrec = p.answer_record_count() as usize + p.authority_record_count() as usize + p.additional_record_count() as usize;
+            for _ in 0..nrec {
+                match DnsRecord::parse(rest) {
+                    Ok((r, rec)) => {
+                        looped |= drain_name(&p, rec.name, cap);
+                        match rec.data {
+                            DnsRecordData::Cname(name) => looped |= drain_name(&p, name, cap),
+                            DnsRecordData::Other(_, data) => {
+                                black_box(data.len());
+                            }
+                            _ => {}
+                        }
+                        rest = r;
+                    }
+                    Err(_) => break,
+                }
+            }
+        }
+        (first_q, looped)
+    });
+    if let Some((q, l)) = walked {
+        parse_ok = q;
+        looped |= l;
+    }
+    // names starting at every offset of the first bytes behind the header
+    let l2 = b.call("parse_name at offsets", || {
+        let mut looped = false;
+        let hi = d.len().min(12 + 40);
+        for off in 12..hi {
+            looped |= drain_name(&p, &d[off..], cap);
+        }
+        looped
+    });
+    if looped || l2 == Some(true) {
+        b.looped("dns:parse_name:loop", "parse_name");
+    }
+    Out::accepted(parse_ok)
+}
+
+fn run_ieee802154(b: &mut Bat, d: &[u8]) -> Out {
+    let Some(Ok(p)) = b.call("new_checked", || Ieee802154Frame::new_checked(d)) else {
+        return Out::rejected();
+    };
+    acc!(b, p; frame_type, frame_pending, ack_request, pan_id_compression, sequence_number_suppression,
+        ie_present, dst_addressing_mode, frame_version, src_addressing_mode, sequence_number,
+        dst_pan_id, dst_addr, src_pan_id, src_addr, mac_header, payload);
+    // the auxiliary security header only exists when the security bit is set
+    if b.call("security_enabled", || p.security_enabled()) == Some(true) {
+        acc!(b, p; security_level, key_identifier_mode, frame_counter_suppressed, frame_counter,
+            key_source, key_index, message_integrity_code);
+    }
+    b.call("Display", || format!("{}", p));
+    let r = b.call("Repr::parse", || Ieee802154Repr::parse(&p).map(|r| r.buffer_len()));
+    Out::accepted(any_ok(&[r]))
+}
+
+fn ll_ext() -> Ieee802154Address {
+    Ieee802154Address::Extended([0x02, 0x12, 0x4b, 0x00, 0x14, 0xb5, 0xd9, 0xc7])
+}
+fn ll_short() -> Ieee802154Address {
+    Ieee802154Address::Short([0x12, 0x34])
+}
+
+fn run_iphc(b: &mut Bat, d: &[u8]) -> Out {
+    b.call("SixlowpanPacket::dispatch", || SixlowpanPacket::dispatch(d));
+    let Some(Ok(p)) = b.call("new_checked", || SixlowpanIphcPacket::new_checked(d)) else {
+        return Out::rejected();
+    };
+    acc!(b, p; next_header, hop_limit, src_context_id, dst_context_id, ecn_field, dscp_field,
+        flow_label_field, header_len, payload);
+    let ctx1 = [SixlowpanAddressContext([0x20, 0x01, 0x0d, 0xb8, 0, 0, 0, 1])];
+    let ctx16 = [SixlowpanAddressContext([0x20, 0x01, 0x0d, 0xb8, 0, 0, 0, 2]); 16];
+    let lls = [None, Some(ll_ext()), Some(ll_short()), Some(Ieee802154Address::Absent)];
+    b.call("src_addr + resolve", || {
+        if let Ok(a) = p.src_addr() {
+            for ll in lls {
+                black_box(a.resolve(ll, &[]).is_ok());
+                black_box(a.resolve(ll, &ctx1).is_ok());
+                black_box(a.resolve(ll, &ctx16).is_ok());
+            }
+        }
+    });
+    b.call("dst_addr + resolve", || {
+        if let Ok(a) = p.dst_addr() {
+            for ll in lls {
+                black_box(a.resolve(ll, &[]).is_ok());
+                black_box(a.resolve(ll, &ctx1).is_ok());
+                black_box(a.resolve(ll, &ctx16).is_ok());
+            }
+        }
+    });
+    let mut rs = vec![];
+    rs.push(b.call("Repr::parse(no ll, no ctx)", || SixlowpanIphcRepr::parse(&p, None, None, &[]).map(|r| format!("{}", r))));
+    rs.push(b.call("Repr::parse(ext/short, 1 ctx)", || {
+        SixlowpanIphcRepr::parse(&p, Some(ll_ext()), Some(ll_short()), &ctx1).map(|r| format!("{}", r))
+    }));
+    rs.push(b.call("Repr::parse(short/ext, 16 ctx)", || {
+        SixlowpanIphcRepr::parse(&p, Some(ll_short()), Some(ll_ext()), &ctx16).map(|r| format!("{}", r))
+    }));
+    Out::accepted(any_ok(&rs))
+}
+
+fn run_nhc_ext(b: &mut Bat, d: &[u8]) -> Out {
+    b.call("SixlowpanNhcPacket::dispatch", || SixlowpanNhcPacket::dispatch(d).is_ok());
+    let Some(Ok(p)) = b.call("new_checked", || SixlowpanExtHeaderPacket::new_checked(d)) else {
+        return Out::rejected();
+    };
+    acc!(b, p; extension_header_id, length, next_header, payload);
+    let r = b.call("Repr::parse", || SixlowpanExtHeaderRepr::parse(&p).map(|r| r.buffer_len()));
+    Out::accepted(any_ok(&[r]))
+}
+
+fn run_nhc_udp(b: &mut Bat, d: &[u8]) -> Out {
+    b.call("SixlowpanNhcPacket::dispatch", || SixlowpanNhcPacket::dispatch(d).is_ok());
+    let Some(Ok(p)) = b.call("new_checked", || SixlowpanUdpNhcPacket::new_checked(d)) else {
+        return Out::rejected();
+    };
+    acc!(b, p; src_port, dst_port, checksum, payload);
+    let mut rs = vec![];
+    for c in caps2() {
+        rs.push(b.call("Repr::parse", || SixlowpanUdpNhcRepr::parse(&p, &a6s(), &a6d(), &c).map(|r| r.header_len())));
+    }
+    Out::accepted(any_ok(&rs))
+}
+
+fn run_frag(b: &mut Bat, d: &[u8]) -> Out {
+    b.call("SixlowpanPacket::dispatch", || SixlowpanPacket::dispatch(d));
+    let Some(Ok(p)) = b.call("new_checked", || SixlowpanFragPacket::new_checked(d)) else {
+        return Out::rejected();
+    };
+    acc!(b, p; dispatch, datagram_size, datagram_tag, datagram_offset, is_first_fragment, payload);
+    // get_key unwraps the link-layer addresses of the frame representation: give it some
+    let ll = Ieee802154Repr {
+        frame_type: Ieee802154FrameType::Data,
+        security_enabled: false,
+        frame_pending: false,
+        ack_request: false,
+        sequence_number: Some(1),
+        pan_id_compression: true,
+        frame_version: Ieee802154FrameVersion::Ieee802154_2006,
+        dst_pan_id: Some(Ieee802154Pan(0xabcd)),
+        dst_addr: Some(ll_short()),
+        src_pan_id: None,
+        src_addr: Some(ll_ext()),
+    };
+    b.call("get_key", || {
+        black_box(p.get_key(&ll));
+    });
+    let r = b.call("Repr::parse", || SixlowpanFragRepr::parse(&p).map(|r| (format!("{}", r), r.buffer_len())));
+    Out::accepted(any_ok(&[r]))
+}
+
+// ------------------------------------------------------------------ seed packets
+
+fn mk_udp(v6: bool, src_port: u16, dst_port: u16, payload: &[u8]) -> Vec<u8> {
+    let r = UdpRepr { src_port, dst_port };
+    let mut buf = vec![0u8; 8 + payload.len()];
+    let (s, d) = if v6 { (IpAddress::Ipv6(a6s()), IpAddress::Ipv6(a6d())) } else { (IpAddress::Ipv4(a4s()), IpAddress::Ipv4(a4d())) };
+    r.emit(&mut UdpPacket::new_unchecked(&mut buf[..]), &s, &d, payload.len(), |p| p.copy_from_slice(payload), &ChecksumCapabilities::default());
+    buf
+}
+
+fn tcp_repr<'a>(control: TcpControl, payload: &'a [u8]) -> TcpRepr<'a> {
+    TcpRepr {
+        src_port: 49152,
+        dst_port: 80,
+        control,
+        seq_number: TcpSeqNumber(0x01234567),
+        ack_number: None,
+        window_len: 4096,
+        window_scale: None,
+        max_seg_size: None,
+        sack_permitted: false,
+        sack_ranges: [None, None, None],
+        timestamp: None,
+        payload,
+    }
+}
+
+fn mk_tcp(v6: bool, r: &TcpRepr) -> Vec<u8> {
+    let mut buf = vec![0u8; r.buffer_len()];
+    let (s, d) = if v6 { (IpAddress::Ipv6(a6s()), IpAddress::Ipv6(a6d())) } else { (IpAddress::Ipv4(a4s()), IpAddress::Ipv4(a4d())) };
+    r.emit(&mut TcpPacket::new_unchecked(&mut buf[..]), &s, &d, &ChecksumCapabilities::default());
+    buf
+}
+
+fn tcp_syn(v6: bool) -> Vec<u8> {
+    let mut r = tcp_repr(TcpControl::Syn, &[]);
+    r.max_seg_size = Some(1460);
+    r.window_scale = Some(7);
+    r.sack_permitted = true;
+    r.timestamp = Some(TcpTimestampRepr::new(0x11223344, 0));
+    mk_tcp(v6, &r)
+}
+
+fn tcp_sack(v6: bool) -> Vec<u8> {
+    let mut r = tcp_repr(TcpControl::None, b"0123456789");
+    r.ack_number = Some(TcpSeqNumber(0x7654321));
+    r.sack_ranges = [Some((1000, 2000)), Some((3000, 4000)), None];
+    r.timestamp = Some(TcpTimestampRepr::new(5, 6));
+    mk_tcp(v6, &r)
+}
+
+fn tcp_refill_checksum(buf: &mut [u8]) {
+    let mut p = TcpPacket::new_unchecked(&mut buf[..]);
+    p.fill_checksum(&IpAddress::Ipv4(a4s()), &IpAddress::Ipv4(a4d()));
+}
+
+/// TCP header with hand-written option bytes (padded to a multiple of 4 with NOPs)
+fn tcp_raw_opts(opts: &[u8], payload: &[u8]) -> Vec<u8> {
+    let r = tcp_repr(TcpControl::Psh, &[]);
+    let mut buf = mk_tcp(false, &r);
+    let mut o = opts.to_vec();
+    while o.len() % 4 != 0 {
+        o.push(1);
+    }
+    buf.truncate(20);
+    buf.extend_from_slice(&o);
+    buf.extend_from_slice(payload);
+    let hl = 20 + o.len();
+    buf[12] = ((hl / 4) as u8) << 4 | (buf[12] & 0x0f);
+    tcp_refill_checksum(&mut buf);
+    buf
+}
+
+fn mk_ipv4(proto: IpProtocol, payload: &[u8]) -> Vec<u8> {
+    let r = Ipv4Repr { src_addr: a4s(), dst_addr: a4d(), next_header: proto, payload_len: payload.len(), hop_limit: 64 };
+    let mut buf = vec![0u8; 20 + payload.len()];
+    r.emit(&mut Ipv4Packet::new_unchecked(&mut buf[..]), &ChecksumCapabilities::default());
+    buf[20..].copy_from_slice(payload);
+    buf
+}
+
+/// IPv4 packet with `optlen` bytes of (NOP) options
+fn mk_ipv4_opts(proto: IpProtocol, optlen: usize, payload: &[u8]) -> Vec<u8> {
+    let base = mk_ipv4(proto, payload);
+    let mut buf = base[..20].to_vec();
+    buf.extend(std::iter::repeat(1u8).take(optlen));
+    buf.extend_from_slice(payload);
+    let total = buf.len() as u16;
+    let mut p = Ipv4Packet::new_unchecked(&mut buf[..]);
+    p.set_header_len((20 + optlen) as u8);
+    p.set_total_len(total);
+    p.fill_checksum();
+    buf
+}
+
+fn mk_ipv4_frag(payload: &[u8]) -> Vec<u8> {
+    let mut buf = mk_ipv4(IpProtocol::Udp, payload);
+    let mut p = Ipv4Packet::new_unchecked(&mut buf[..]);
+    p.set_dont_frag(false);
+    p.set_more_frags(true);
+    p.set_frag_offset(64);
+    p.set_ident(0x4242);
+    p.fill_checksum();
+    buf
+}
+
+fn mk_ipv6(nh: IpProtocol, payload: &[u8]) -> Vec<u8> {
+    let r = Ipv6Repr { src_addr: a6s(), dst_addr: a6d(), next_header: nh, payload_len: payload.len(), hop_limit: 64 };
+    let mut buf = vec![0u8; 40 + payload.len()];
+    r.emit(&mut Ipv6Packet::new_unchecked(&mut buf[..]));
+    buf[40..].copy_from_slice(payload);
+    buf
+}
+
+fn mk_eth(et: EthernetProtocol, payload: &[u8]) -> Vec<u8> {
+    let r = EthernetRepr {
+        src_addr: EthernetAddress([0x02, 0, 0, 0, 0, 1]),
+        dst_addr: EthernetAddress([0x02, 0, 0, 0, 0, 2]),
+        ethertype: et,
+    };
+    let mut buf = vec![0u8; 14 + payload.len()];
+    r.emit(&mut EthernetFrame::new_unchecked(&mut buf[..]));
+    buf[14..].copy_from_slice(payload);
+    buf
+}
+
+fn mk_arp(op: ArpOperation) -> Vec<u8> {
+    let r = ArpRepr::EthernetIpv4 {
+        operation: op,
+        source_hardware_addr: EthernetAddress([0x02, 0, 0, 0, 0, 1]),
+        source_protocol_addr: a4s(),
+        target_hardware_addr: EthernetAddress([0, 0, 0, 0, 0, 0]),
+        target_protocol_addr: a4d(),
+    };
+    let mut buf = vec![0u8; r.buffer_len()];
+    r.emit(&mut ArpPacket::new_unchecked(&mut buf[..]));
+    buf
+}
+
+fn mk_icmpv4(r: &Icmpv4Repr) -> Vec<u8> {
+    let mut buf = vec![0u8; r.buffer_len()];
+    r.emit(&mut Icmpv4Packet::new_unchecked(&mut buf[..]), &ChecksumCapabilities::default());
+    buf
+}
+
+fn icmpv4_echo(reply: bool) -> Vec<u8> {
+    if reply {
+        mk_icmpv4(&Icmpv4Repr::EchoReply { ident: 0x1234, seq_no: 7, data: b"abcdefgh" })
+    } else {
+        mk_icmpv4(&Icmpv4Repr::EchoRequest { ident: 0x1234, seq_no: 7, data: b"abcdefgh" })
+    }
+}
+
+fn icmpv4_error(time_exceeded: bool) -> Vec<u8> {
+    let header = Ipv4Repr { src_addr: a4d(), dst_addr: a4s(), next_header: IpProtocol::Udp, payload_len: 12, hop_limit: 1 };
+    let data = b"\x12\x34\x00\x35\x00\x0c\x00\x00abcd";
+    if time_exceeded {
+        mk_icmpv4(&Icmpv4Repr::TimeExceeded { reason: Icmpv4TimeExceeded::TtlExpired, header, data })
+    } else {
+        mk_icmpv4(&Icmpv4Repr::DstUnreachable { reason: Icmpv4DstUnreachable::PortUnreachable, header, data })
+    }
+}
+
+fn mk_igmp(r: &IgmpRepr) -> Vec<u8> {
+    let mut buf = vec![0u8; r.buffer_len()];
+    r.emit(&mut IgmpPacket::new_unchecked(&mut buf[..]));
+    buf
+}
+
+fn mk_icmpv6(r: &Icmpv6Repr) -> Vec<u8> {
+    let mut buf = vec![0u8; r.buffer_len()];
+    r.emit(&a6s(), &a6d(), &mut Icmpv6Packet::new_unchecked(&mut buf[..]), &ChecksumCapabilities::default());
+    buf
+}
+
+fn inner6() -> Ipv6Repr {
+    Ipv6Repr { src_addr: a6d(), dst_addr: a6s(), next_header: IpProtocol::Udp, payload_len: 12, hop_limit: 3 }
+}
+
+fn eth_ll() -> RawHardwareAddress {
+    RawHardwareAddress::from_bytes(&[0x02, 0, 0, 0, 0, 1])
+}
+fn ext_ll() -> RawHardwareAddress {
+    RawHardwareAddress::from_bytes(&[0x02, 0x12, 0x4b, 0, 0x14, 0xb5, 0xd9, 0xc7])
+}
+
+fn mld_records() -> Vec<u8> {
+    let mut v = vec![0u8; 20];
+    let r = MldAddressRecordRepr::new(MldRecordType::ChangeToInclude, Ipv6Address::new(0xff02, 0, 0, 0, 0, 0, 0, 0x16));
+    r.emit(&mut MldAddressRecord::new_unchecked(&mut v[..]));
+    // second record with two sources and one word of auxiliary data
+    let mut w = vec![0u8; 20 + 32 + 4];
+    let r2 = MldAddressRecordRepr {
+        record_type: MldRecordType::AllowNewSources,
+        aux_data_len: 1,
+        num_srcs: 2,
+        mcast_addr: Ipv6Address::new(0xff05, 0, 0, 0, 0, 0, 0, 0x1234),
+        payload: &[],
+    };
+    r2.emit(&mut MldAddressRecord::new_unchecked(&mut w[..]));
+    for (i, x) in w[20..].iter_mut().enumerate() {
+        *x = i as u8;
+    }
+    v.extend_from_slice(&w);
+    v
+}
+
+/// fields for the NDISC options that follow the fixed ICMPv6 header of `hdr` bytes
+fn ndisc_opt_fields(buf: &[u8], hdr: usize) -> Vec<F> {
+    let mut v = vec![];
+    let mut off = hdr;
+    while off + 2 <= buf.len() {
+        v.push(f8("ndisc-opt-type", off));
+        v.push(f8s("ndisc-opt-len", off + 1, 8));
+        let l = buf[off + 1] as usize * 8;
+        if l == 0 {
+            break;
+        }
+        off += l;
+    }
+    v
+}
+
+/// fields for kind/length of TLV options (kind, len incl. or excl. the 2 header bytes)
+fn tlv_fields(buf: &[u8], start: usize, end: usize, len_incl_hdr: bool, one_byte: &[u8], stop: Option<u8>, kind: &'static str, len: &'static str) -> Vec<F> {
+    let mut v = vec![];
+    let mut off = start;
+    let end = end.min(buf.len());
+    while off < end {
+        v.push(f8(kind, off));
+        if Some(buf[off]) == stop {
+            break;
+        }
+        if one_byte.contains(&buf[off]) {
+            off += 1;
+            continue;
+        }
+        if off + 1 >= end {
+            break;
+        }
+        v.push(f8(len, off + 1));
+        let l = buf[off + 1] as usize;
+        let adv = if len_incl_hdr { l } else { l + 2 };
+        if adv < 2 {
+            break;
+        }
+        off += adv;
+    }
+    v
+}
+
+fn shift_fields(fs: &[F], by: usize) -> Vec<F> {
+    fs.iter().map(|f| F { off: f.off + by, ..*f }).collect()
+}
+
+fn ipv4_fields() -> Vec<F> {
+    vec![
+        fbits("ipv4-version", 0, 1, 4, 4, 1),
+        fbits("ipv4-ihl", 0, 1, 0, 4, 4),
+        f16("ipv4-total-len", 2),
+        f16("ipv4-flags-fragoff", 6),
+        f8("ipv4-proto", 9),
+    ]
+}
+fn ipv6_fields() -> Vec<F> {
+    vec![fbits("ipv6-version", 0, 1, 4, 4, 1), f16("ipv6-payload-len", 4), f8("ipv6-next-header", 6)]
+}
+fn udp_fields() -> Vec<F> {
+    vec![f16("udp-src-port", 0), f16("udp-dst-port", 2), f16("udp-len", 4), f16("udp-checksum", 6)]
+}
+fn tcp_fields(buf: &[u8]) -> Vec<F> {
+    let mut v = vec![
+        f16("tcp-src-port", 0),
+        f16("tcp-dst-port", 2),
+        fbits("tcp-data-offset", 12, 2, 12, 4, 4),
+        fbits("tcp-flags", 12, 2, 0, 9, 1),
+    ];
+    if buf.len() >= 20 {
+        let hl = ((buf[12] >> 4) as usize) * 4;
+        v.extend(tlv_fields(buf, 20, hl, true, &[1], Some(0), "tcp-opt-kind", "tcp-opt-len"));
+    }
+    v
+}
+
+fn seeds_eth() -> Vec<Seed> {
+    let mut v = vec![];
+    let mut ef = vec![f16("ethertype", 12)];
+    v.push(seed("eth+arp", mk_eth(EthernetProtocol::Arp, &mk_arp(ArpOperation::Request)), {
+        let mut f = ef.clone();
+        f.extend([f8("arp-hlen", 18), f8("arp-plen", 19), f16("arp-htype", 14), f16("arp-ptype", 16)]);
+        f
+    }));
+    ef.extend(shift_fields(&ipv4_fields(), 14));
+    let udp = mk_udp(false, 1234, 53, b"hello world!");
+    v.push(seed("eth+ipv4+udp", mk_eth(EthernetProtocol::Ipv4, &mk_ipv4(IpProtocol::Udp, &udp)), {
+        let mut f = ef.clone();
+        f.extend(shift_fields(&udp_fields(), 34));
+        f
+    }));
+    let tcp = tcp_syn(false);
+    v.push(seed("eth+ipv4+tcp-syn", mk_eth(EthernetProtocol::Ipv4, &mk_ipv4(IpProtocol::Tcp, &tcp)), {
+        let mut f = ef.clone();
+        f.extend(shift_fields(&tcp_fields(&tcp), 34));
+        f
+    }));
+    v.push(seed("eth+ipv4+icmp-echo", mk_eth(EthernetProtocol::Ipv4, &mk_ipv4(IpProtocol::Icmp, &icmpv4_echo(false))), {
+        let mut f = ef.clone();
+        f.extend([f8("icmpv4-type", 34), f8("icmpv4-code", 35)]);
+        f
+    }));
+    v.push(seed("eth+ipv4+icmp-unreachable", mk_eth(EthernetProtocol::Ipv4, &mk_ipv4(IpProtocol::Icmp, &icmpv4_error(false))), {
+        let mut f = ef.clone();
+        f.extend([f8("icmpv4-type", 34), f8("icmpv4-code", 35)]);
+        f.extend(shift_fields(&ipv4_fields(), 42));
+        f
+    }));
+    let mut e6 = vec![f16("ethertype", 12)];
+    e6.extend(shift_fields(&ipv6_fields(), 14));
+    let udp6 = mk_udp(true, 1234, 53, b"hello world!");
+    v.push(seed("eth+ipv6+udp", mk_eth(EthernetProtocol::Ipv6, &mk_ipv6(IpProtocol::Udp, &udp6)), {
+        let mut f = e6.clone();
+        f.extend(shift_fields(&udp_fields(), 54));
+        f
+    }));
+    let tcp6 = tcp_sack(true);
+    v.push(seed("eth+ipv6+tcp-sack", mk_eth(EthernetProtocol::Ipv6, &mk_ipv6(IpProtocol::Tcp, &tcp6)), {
+        let mut f = e6.clone();
+        f.extend(shift_fields(&tcp_fields(&tcp6), 54));
+        f
+    }));
+    v
+}
+
+fn seeds_arp() -> Vec<Seed> {
+    let f = vec![f16("arp-htype", 0), f16("arp-ptype", 2), f8("arp-hlen", 4), f8("arp-plen", 5), f16("arp-oper", 6)];
+    vec![
+        seed("arp-request", mk_arp(ArpOperation::Request), f.clone()),
+        seed("arp-reply", mk_arp(ArpOperation::Reply), f.clone()),
+        seed("arp-request+padding", {
+            let mut b = mk_arp(ArpOperation::Request);
+            b.extend_from_slice(&[0u8; 18]);
+            b
+        }, f),
+    ]
+}
+
+fn seeds_ipv4() -> Vec<Seed> {
+    let base = ipv4_fields();
+    let mut v = vec![];
+    let udp = mk_udp(false, 1234, 53, b"hello world!");
+    v.push(seed("ipv4+udp", mk_ipv4(IpProtocol::Udp, &udp), {
+        let mut f = base.clone();
+        f.extend(shift_fields(&udp_fields(), 20));
+        f
+    }));
+    let tcp = tcp_syn(false);
+    v.push(seed("ipv4+tcp-syn", mk_ipv4(IpProtocol::Tcp, &tcp), {
+        let mut f = base.clone();
+        f.extend(shift_fields(&tcp_fields(&tcp), 20));
+        f
+    }));
+    v.push(seed("ipv4+icmp-echo", mk_ipv4(IpProtocol::Icmp, &icmpv4_echo(true)), {
+        let mut f = base.clone();
+        f.extend([f8("icmpv4-type", 20), f8("icmpv4-code", 21)]);
+        f
+    }));
+    v.push(seed("ipv4+icmp-time-exceeded", mk_ipv4(IpProtocol::Icmp, &icmpv4_error(true)), {
+        let mut f = base.clone();
+        f.extend([f8("icmpv4-type", 20), f8("icmpv4-code", 21)]);
+        f.extend(shift_fields(&ipv4_fields(), 28));
+        f
+    }));
+    v.push(seed("ipv4+igmp", mk_ipv4(IpProtocol::Igmp, &mk_igmp(&IgmpRepr::MembershipReport { group_addr: Ipv4Address::new(224, 0, 0, 251), version: IgmpVersion::Version2 })), base.clone()));
+    v.push(seed("ipv4-with-options+udp", mk_ipv4_opts(IpProtocol::Udp, 8, &udp), {
+        let mut f = base.clone();
+        f.extend(shift_fields(&udp_fields(), 28));
+        f
+    }));
+    v.push(seed("ipv4-fragment", mk_ipv4_frag(&[0x55; 24]), base.clone()));
+    v.push(seed("ipv4+udp+trailing", {
+        let mut b = mk_ipv4(IpProtocol::Udp, &udp);
+        b.extend_from_slice(&[0xaa; 6]);
+        b
+    }, base));
+    v
+}
+
+fn hbh_mld_payload() -> Vec<u8> {
+    // hop-by-hop (router alert + PadN) followed by an MLDv2 report
+    let mut hbh = Ipv6HopByHopRepr::mldv2_router_alert();
+    hbh.push_padn_option(0);
+    let mut ext = vec![0u8; 2 + hbh.buffer_len()];
+    Ipv6ExtHeaderRepr { next_header: IpProtocol::Icmpv6, length: 0, data: &[] }.emit(&mut Ipv6ExtHeader::new_unchecked(&mut ext[..]));
+    hbh.emit(&mut Ipv6HopByHopHeader::new_unchecked(&mut ext[2..]));
+    let recs = mld_records();
+    let mld = mk_icmpv6(&Icmpv6Repr::Mld(MldRepr::Report { nr_mcast_addr_rcrds: 2, data: &recs }));
+    ext.extend_from_slice(&mld);
+    ext
+}
+
+fn seeds_ipv6() -> Vec<Seed> {
+    let base = ipv6_fields();
+    let mut v = vec![];
+    let udp = mk_udp(true, 1234, 53, b"hello world!");
+    v.push(seed("ipv6+udp", mk_ipv6(IpProtocol::Udp, &udp), {
+        let mut f = base.clone();
+        f.extend(shift_fields(&udp_fields(), 40));
+        f
+    }));
+    let tcp = tcp_syn(true);
+    v.push(seed("ipv6+tcp-syn", mk_ipv6(IpProtocol::Tcp, &tcp), {
+        let mut f = base.clone();
+        f.extend(shift_fields(&tcp_fields(&tcp), 40));
+        f
+    }));
+    let echo = mk_icmpv6(&Icmpv6Repr::EchoRequest { ident: 1, seq_no: 2, data: b"abcdefgh" });
+    v.push(seed("ipv6+icmpv6-echo", mk_ipv6(IpProtocol::Icmpv6, &echo), base.clone()));
+    v.push(seed("ipv6+hbh+mld-report", mk_ipv6(IpProtocol::HopByHop, &hbh_mld_payload()), {
+        let mut f = base.clone();
+        f.extend([f8("ext-next-header", 40), f8s("ext-len", 41, 8)]);
+        f
+    }));
+    v.push(seed("ipv6-no-next-header", mk_ipv6(IpProtocol::Ipv6NoNxt, &[]), base.clone()));
+    v.push(seed("ipv6+udp+trailing", {
+        let mut b = mk_ipv6(IpProtocol::Udp, &udp);
+        b.extend_from_slice(&[0xaa; 5]);
+        b
+    }, base));
+    v
+}
+
+fn seeds_ipv6ext() -> Vec<Seed> {
+    let f = vec![f8("ext-next-header", 0), f8s("ext-len", 1, 8)];
+    let mut hbh = Ipv6HopByHopRepr::mldv2_router_alert();
+    hbh.push_padn_option(0);
+    let mut a = vec![0u8; 8];
+    Ipv6ExtHeaderRepr { next_header: IpProtocol::Icmpv6, length: 0, data: &[] }.emit(&mut Ipv6ExtHeader::new_unchecked(&mut a[..]));
+    hbh.emit(&mut Ipv6HopByHopHeader::new_unchecked(&mut a[2..]));
+    let mut r2 = vec![0u8; 24];
+    Ipv6ExtHeaderRepr { next_header: IpProtocol::Tcp, length: 2, data: &[] }.emit(&mut Ipv6ExtHeader::new_unchecked(&mut r2[..]));
+    Ipv6RoutingRepr::Type2 { segments_left: 1, home_address: a6d() }.emit(&mut Ipv6RoutingHeader::new_unchecked(&mut r2[2..]));
+    let mut fr = vec![0u8; 8];
+    Ipv6ExtHeaderRepr { next_header: IpProtocol::Udp, length: 0, data: &[] }.emit(&mut Ipv6ExtHeader::new_unchecked(&mut fr[..]));
+    Ipv6FragmentRepr { frag_offset: 185, more_frags: true, ident: 0xdeadbeef }.emit(&mut Ipv6FragmentHeader::new_unchecked(&mut fr[2..]));
+    let mut long = vec![0u8; 8 + 8 * 3 + 9];
+    long[0] = 0x3c;
+    long[1] = 3;
+    long[2] = 1;
+    long[3] = 28;
+    vec![
+        seed("ext-hbh-router-alert", a, f.clone()),
+        seed("ext-routing-type2", r2, f.clone()),
+        seed("ext-fragment", fr, f.clone()),
+        seed("ext-dstopts-len3+trailing", long, f),
+    ]
+}
+
+fn seeds_ipv6hbh() -> Vec<Seed> {
+    let mut hbh = Ipv6HopByHopRepr::mldv2_router_alert();
+    hbh.push_padn_option(0);
+    let mut a = vec![0u8; hbh.buffer_len()];
+    hbh.emit(&mut Ipv6HopByHopHeader::new_unchecked(&mut a[..]));
+    let b = vec![0u8; 6];
+    let c = vec![0x3e, 4, 1, 2, 3, 4, 1, 4, 0, 0, 0, 0, 0, 0];
+    let d = vec![0x63, 4, 0, 0x1e, 3, 0];
+    let e = vec![1, 1, 0, 1, 0, 0xc2, 2, 9, 9, 5, 2, 0, 1, 0];
+    let tl = |buf: &[u8]| tlv_fields(buf, 0, buf.len(), false, &[0], None, "ipv6-opt-type", "ipv6-opt-len");
+    vec![
+        seed("hbh-router-alert+padn", a.clone(), tl(&a)),
+        seed("hbh-six-pad1", b.clone(), tl(&b)),
+        seed("hbh-unknown+padn4", c.clone(), tl(&c)),
+        seed("hbh-rpl-option", d.clone(), tl(&d)),
+        seed("hbh-five-options", e.clone(), tl(&e)),
+    ]
+}
+
+fn seeds_ipv6opt() -> Vec<Seed> {
+    let f = vec![f8("ipv6-opt-type", 0), f8("ipv6-opt-len", 1)];
+    vec![
+        seed("opt-pad1", vec![0], f.clone()),
+        seed("opt-padn3", vec![1, 3, 0, 0, 0], f.clone()),
+        seed("opt-padn0", vec![1, 0], f.clone()),
+        seed("opt-router-alert", vec![5, 2, 0, 0], f.clone()),
+        seed("opt-unknown-discard", vec![0xc2, 4, 1, 2, 3, 4, 9, 9], f.clone()),
+        seed("opt-rpl", vec![0x63, 4, 0, 0x1e, 3, 0], f),
+    ]
+}
+
+fn seeds_ipv6frag() -> Vec<Seed> {
+    let mut a = vec![0u8; 6];
+    Ipv6FragmentRepr { frag_offset: 185, more_frags: true, ident: 0xdeadbeef }.emit(&mut Ipv6FragmentHeader::new_unchecked(&mut a[..]));
+    let mut b = vec![0u8; 6];
+    Ipv6FragmentRepr { frag_offset: 0, more_frags: false, ident: 1 }.emit(&mut Ipv6FragmentHeader::new_unchecked(&mut b[..]));
+    b.extend_from_slice(&[0x11; 10]);
+    let f = vec![f16("frag-offset-flags", 0), f32_("frag-ident", 2)];
+    vec![seed("frag-mid", a, f.clone()), seed("frag-last+payload", b, f)]
+}
+
+fn seeds_ipv6routing() -> Vec<Seed> {
+    let f = vec![f8("routing-type", 0), f8("routing-segments-left", 1), f8("routing-cmpr", 2), f8("routing-pad", 3)];
+    let mut a = vec![0u8; 22];
+    Ipv6RoutingRepr::Type2 { segments_left: 1, home_address: a6d() }.emit(&mut Ipv6RoutingHeader::new_unchecked(&mut a[..]));
+    let addrs = [0x05u8, 0, 5, 0, 5, 0, 5, 6, 0, 6, 0, 6, 0, 6, 2, 0, 2, 0, 2, 0, 2, 0, 0, 0];
+    let rpl = Ipv6RoutingRepr::Rpl { segments_left: 3, cmpr_i: 9, cmpr_e: 9, pad: 3, addresses: &addrs };
+    let mut b = vec![0u8; rpl.buffer_len()];
+    rpl.emit(&mut Ipv6RoutingHeader::new_unchecked(&mut b[..]));
+    let rpl0 = Ipv6RoutingRepr::Rpl { segments_left: 0, cmpr_i: 0, cmpr_e: 0, pad: 0, addresses: &[] };
+    let mut c = vec![0u8; rpl0.buffer_len()];
+    rpl0.emit(&mut Ipv6RoutingHeader::new_unchecked(&mut c[..]));
+    vec![
+        seed("routing-type2", a, f.clone()),
+        seed("routing-rpl", b, f.clone()),
+        seed("routing-rpl-empty", c, f.clone()),
+        seed("routing-type0", vec![0, 2, 0, 0, 0, 0, 1, 2, 3, 4, 5, 6, 7, 8], f),
+    ]
+}
+
+fn seeds_icmpv4() -> Vec<Seed> {
+    let f = vec![f8("icmpv4-type", 0), f8("icmpv4-code", 1), f16("icmpv4-checksum", 2)];
+    let fe = {
+        let mut f = f.clone();
+        f.extend(shift_fields(&ipv4_fields(), 8));
+        f
+    };
+    vec![
+        seed("icmpv4-echo-request", icmpv4_echo(false), f.clone()),
+        seed("icmpv4-echo-reply", icmpv4_echo(true), f.clone()),
+        seed("icmpv4-echo-empty", mk_icmpv4(&Icmpv4Repr::EchoRequest { ident: 0, seq_no: 0, data: &[] }), f),
+        seed("icmpv4-dst-unreachable", icmpv4_error(false), fe.clone()),
+        seed("icmpv4-time-exceeded", icmpv4_error(true), fe),
+    ]
+}
+
+fn seeds_icmpv6() -> Vec<Seed> {
+    let base = vec![f8("icmpv6-type", 0), f8("icmpv6-code", 1)];
+    let with = |extra: Vec<F>| {
+        let mut f = base.clone();
+        f.extend(extra);
+        f
+    };
+    let data = b"\x12\x34\x00\x35\x00\x0c\x00\x00abcd";
+    let mut v = vec![];
+    v.push(seed("icmpv6-echo-request", mk_icmpv6(&Icmpv6Repr::EchoRequest { ident: 1, seq_no: 2, data: b"abcdefgh" }), base.clone()));
+    v.push(seed("icmpv6-echo-reply-empty", mk_icmpv6(&Icmpv6Repr::EchoReply { ident: 1, seq_no: 2, data: &[] }), base.clone()));
+    let inner = shift_fields(&ipv6_fields(), 8);
+    v.push(seed("icmpv6-dst-unreachable", mk_icmpv6(&Icmpv6Repr::DstUnreachable { reason: Icmpv6DstUnreachable::PortUnreachable, header: inner6(), data }), with(inner.clone())));
+    v.push(seed("icmpv6-pkt-too-big", mk_icmpv6(&Icmpv6Repr::PktTooBig { mtu: 1280, header: inner6(), data }), with(inner.clone())));
+    v.push(seed("icmpv6-time-exceeded", mk_icmpv6(&Icmpv6Repr::TimeExceeded { reason: Icmpv6TimeExceeded::HopLimitExceeded, header: inner6(), data }), with(inner.clone())));
+    v.push(seed("icmpv6-param-problem", mk_icmpv6(&Icmpv6Repr::ParamProblem { reason: Icmpv6ParamProblem::UnrecognizedNxtHdr, pointer: 40, header: inner6(), data }), with(inner)));
+    let rs = mk_icmpv6(&Icmpv6Repr::Ndisc(NdiscRepr::RouterSolicit { lladdr: Some(eth_ll()) }));
+    v.push(seed("ndisc-router-solicit", rs.clone(), with(ndisc_opt_fields(&rs, 8))));
+    let rs0 = mk_icmpv6(&Icmpv6Repr::Ndisc(NdiscRepr::RouterSolicit { lladdr: None }));
+    v.push(seed("ndisc-router-solicit-bare", rs0, base.clone()));
+    let ra = mk_icmpv6(&Icmpv6Repr::Ndisc(NdiscRepr::RouterAdvert {
+        hop_limit: 64,
+        flags: NdiscRouterFlags::MANAGED,
+        router_lifetime: Duration::from_secs(900),
+        reachable_time: Duration::from_millis(900),
+        retrans_time: Duration::from_millis(900),
+        lladdr: Some(eth_ll()),
+        mtu: Some(1500),
+        prefix_info: Some(NdiscPrefixInformation {
+            prefix_len: 64,
+            flags: NdiscPrefixInfoFlags::ON_LINK | NdiscPrefixInfoFlags::ADDRCONF,
+            valid_lifetime: Duration::from_secs(900),
+            preferred_lifetime: Duration::from_secs(600),
+            prefix: Ipv6Address::new(0x2001, 0xdb8, 0, 0, 0, 0, 0, 0),
+        }),
+    }));
+    v.push(seed("ndisc-router-advert", ra.clone(), with(ndisc_opt_fields(&ra, 16))));
+    let ns = mk_icmpv6(&Icmpv6Repr::Ndisc(NdiscRepr::NeighborSolicit { target_addr: a6d(), lladdr: Some(ext_ll()) }));
+    v.push(seed("ndisc-neighbor-solicit", ns.clone(), with(ndisc_opt_fields(&ns, 24))));
+    let na = mk_icmpv6(&Icmpv6Repr::Ndisc(NdiscRepr::NeighborAdvert { flags: NdiscNeighborFlags::SOLICITED, target_addr: a6s(), lladdr: Some(eth_ll()) }));
+    v.push(seed("ndisc-neighbor-advert", na.clone(), with(ndisc_opt_fields(&na, 24))));
+    let rd_data = [0x11u8; 8];
+    let rd = mk_icmpv6(&Icmpv6Repr::Ndisc(NdiscRepr::Redirect {
+        target_addr: a6d(),
+        dest_addr: Ipv6Address::new(0x2001, 0xdb8, 0, 0, 0, 0, 0, 9),
+        lladdr: Some(eth_ll()),
+        redirected_hdr: Some(NdiscRedirectedHeader {
+            header: Ipv6Repr { src_addr: a6s(), dst_addr: a6d(), next_header: IpProtocol::Udp, payload_len: 8, hop_limit: 64 },
+            data: &rd_data,
+        }),
+    }));
+    v.push(seed("ndisc-redirect", rd.clone(), {
+        let mut f = with(ndisc_opt_fields(&rd, 40));
+        // payload length of the redirected IPv6 header (option at 48, ip header at 56)
+        f.push(f16("redirected-ipv6-payload-len", 60));
+        f
+    }));
+    let q = mk_icmpv6(&Icmpv6Repr::Mld(MldRepr::Query {
+        max_resp_code: 1000,
+        mcast_addr: Ipv6Address::new(0xff02, 0, 0, 0, 0, 0, 0, 0x16),
+        s_flag: true,
+        qrv: 2,
+        qqic: 125,
+        num_srcs: 1,
+        data: &[0x20, 1, 0xd, 0xb8, 0, 0, 0, 0, 0, 0, 0, 0, 0, 0, 0, 1],
+    }));
+    v.push(seed("mld-query", q, with(vec![f16("mld-query-num-srcs", 26), f16("mld-max-resp", 4)])));
+    let recs = mld_records();
+    let rep = mk_icmpv6(&Icmpv6Repr::Mld(MldRepr::Report { nr_mcast_addr_rcrds: 2, data: &recs }));
+    v.push(seed("mld-report", rep, with(vec![
+        f16("mld-nr-records", 6),
+        f8("mld-rec-type", 8),
+        f8("mld-rec-aux-len", 9),
+        f16("mld-rec-num-srcs", 10),
+        f8("mld-rec-aux-len", 29),
+        f16("mld-rec-num-srcs", 30),
+    ])));
+    v
+}
+
+fn mk_ndiscopt(r: &NdiscOptionRepr) -> Vec<u8> {
+    let mut buf = vec![0u8; r.buffer_len()];
+    let mut o = NdiscOption::new_unchecked(&mut buf[..]);
+    r.emit(&mut o);
+    buf
+}
+
+fn seeds_ndiscopt() -> Vec<Seed> {
+    let f = vec![f8("ndisc-opt-type", 0), f8s("ndisc-opt-len", 1, 8)];
+    let rd_data = [0x22u8; 8];
+    let unk = [0u8; 14];
+    vec![
+        seed("opt-slla-eth", mk_ndiscopt(&NdiscOptionRepr::SourceLinkLayerAddr(eth_ll())), f.clone()),
+        seed("opt-tlla-ext", mk_ndiscopt(&NdiscOptionRepr::TargetLinkLayerAddr(ext_ll())), f.clone()),
+        seed("opt-prefix-info", mk_ndiscopt(&NdiscOptionRepr::PrefixInformation(NdiscPrefixInformation {
+            prefix_len: 64,
+            flags: NdiscPrefixInfoFlags::ADDRCONF,
+            valid_lifetime: Duration::from_secs(900),
+            preferred_lifetime: Duration::from_secs(600),
+            prefix: Ipv6Address::new(0x2001, 0xdb8, 0, 0, 0, 0, 0, 0),
+        })), {
+            let mut f = f.clone();
+            f.push(f8("prefix-len", 2));
+            f
+        }),
+        seed("opt-mtu", mk_ndiscopt(&NdiscOptionRepr::Mtu(1500)), f.clone()),
+        seed("opt-redirected-header", mk_ndiscopt(&NdiscOptionRepr::RedirectedHeader(NdiscRedirectedHeader {
+            header: Ipv6Repr { src_addr: a6s(), dst_addr: a6d(), next_header: IpProtocol::Udp, payload_len: 8, hop_limit: 64 },
+            data: &rd_data,
+        })), {
+            let mut f = f.clone();
+            f.push(f16("redirected-ipv6-payload-len", 12));
+            f.push(fbits("redirected-ipv6-version", 8, 1, 4, 4, 1));
+            f
+        }),
+        seed("opt-unknown", mk_ndiscopt(&NdiscOptionRepr::Unknown { type_: 0x20, length: 2, data: &unk }), f.clone()),
+        seed("opt-slla+trailing", {
+            let mut b = mk_ndiscopt(&NdiscOptionRepr::SourceLinkLayerAddr(eth_ll()));
+            b.extend_from_slice(&[5, 1, 0, 0, 0, 0, 5, 0xdc]);
+            b
+        }, f),
+    ]
+}
+
+fn seeds_mldrec() -> Vec<Seed> {
+    let f = vec![f8("mld-rec-type", 0), f8("mld-rec-aux-len", 1), f16("mld-rec-num-srcs", 2)];
+    let recs = mld_records();
+    vec![
+        seed("mldrec-bare", recs[..20].to_vec(), f.clone()),
+        seed("mldrec-with-sources", recs[20..].to_vec(), f.clone()),
+        seed("mldrec-two", recs, f),
+    ]
+}
+
+fn seeds_igmp() -> Vec<Seed> {
+    let f = vec![f8("igmp-type", 0), f8("igmp-max-resp", 1), f16("igmp-checksum", 2), f8("igmp-group-first-octet", 4)];
+    let g = Ipv4Address::new(224, 0, 0, 251);
+    vec![
+        seed("igmp-query-v2", mk_igmp(&IgmpRepr::MembershipQuery { max_resp_time: Duration::from_millis(10_000), group_addr: Ipv4Address::new(0, 0, 0, 0), version: IgmpVersion::Version2 }), f.clone()),
+        seed("igmp-query-v1", mk_igmp(&IgmpRepr::MembershipQuery { max_resp_time: Duration::from_millis(0), group_addr: g, version: IgmpVersion::Version1 }), f.clone()),
+        seed("igmp-report-v2", mk_igmp(&IgmpRepr::MembershipReport { group_addr: g, version: IgmpVersion::Version2 }), f.clone()),
+        seed("igmp-report-v1", mk_igmp(&IgmpRepr::MembershipReport { group_addr: g, version: IgmpVersion::Version1 }), f.clone()),
+        seed("igmp-leave+trailing", {
+            let mut b = mk_igmp(&IgmpRepr::LeaveGroup { group_addr: g });
+            b.extend_from_slice(&[0; 4]);
+            b
+        }, f),
+    ]
+}
+
+fn seeds_udp() -> Vec<Seed> {
+    let f = udp_fields();
+    vec![
+        seed("udp-v4", mk_udp(false, 1234, 53, b"hello world!"), f.clone()),
+        seed("udp-v6", mk_udp(true, 1234, 53, b"hello world!"), f.clone()),
+        seed("udp-empty", mk_udp(false, 68, 67, &[]), f.clone()),
+        seed("udp-zero-checksum", {
+            let mut b = mk_udp(false, 1, 2, b"xyz");
+            b[6] = 0;
+            b[7] = 0;
+            b
+        }, f.clone()),
+        seed("udp-v4+trailing", {
+            let mut b = mk_udp(false, 1234, 53, b"hello world!");
+            b.extend_from_slice(&[0xaa; 7]);
+            b
+        }, f),
+    ]
+}
+
+fn seeds_tcp() -> Vec<Seed> {
+    let mut v = vec![];
+    let mut push = |name: &'static str, b: Vec<u8>| {
+        let f = tcp_fields(&b);
+        v.push(seed(name, b, f));
+    };
+    push("tcp-syn-all-options", tcp_syn(false));
+    push("tcp-ack-sack-ts-data", tcp_sack(false));
+    push("tcp-psh-data", mk_tcp(false, &{
+        let mut r = tcp_repr(TcpControl::Psh, b"GET / HTTP/1.0\r\n\r\n");
+        r.ack_number = Some(TcpSeqNumber(99));
+        r
+    }));
+    push("tcp-fin-v6", mk_tcp(true, &{
+        let mut r = tcp_repr(TcpControl::Fin, &[]);
+        r.ack_number = Some(TcpSeqNumber(-5));
+        r
+    }));
+    push("tcp-rst", mk_tcp(false, &tcp_repr(TcpControl::Rst, &[])));
+    // unknown option, NOPs, explicit end-of-list followed by garbage
+    push("tcp-unknown-option-eol", tcp_raw_opts(&[1, 1, 0xfe, 6, 1, 2, 3, 4, 0, 0x55, 0x55], b"data"));
+    // four SACK blocks (length 34) and a window scale above 14
+    push("tcp-four-sack-blocks", tcp_raw_opts(&[
+        5, 34, 0, 0, 0, 1, 0, 0, 0, 2, 0, 0, 0, 3, 0, 0, 0, 4, 0, 0, 0, 5, 0, 0, 0, 6, 0, 0, 0, 7, 0, 0, 0, 8, 3, 3, 15,
+    ], &[]));
+    // full 40 bytes of options: ts + mss + ws + sackperm + 5 x 4-byte unknown
+    push("tcp-40-option-bytes", tcp_raw_opts(&[
+        8, 10, 0, 0, 0, 1, 0, 0, 0, 2, 2, 4, 5, 0xb4, 3, 3, 2, 4, 2, 0xfd, 4, 0, 0, 0xfd, 4, 0, 0, 0xfd, 4, 0, 0, 0xfd, 4, 0, 0, 0xfd, 3, 0, 1, 1,
+    ], b"x"));
+    v
+}
+
+fn seeds_tcpopt() -> Vec<Seed> {
+    let f = vec![f8("tcp-opt-kind", 0), f8("tcp-opt-len", 1)];
+    let mk = |name: &'static str, b: &[u8]| seed(name, b.to_vec(), f.clone());
+    vec![
+        mk("opt-eol", &[0]),
+        mk("opt-nop+mss", &[1, 2, 4, 5, 0xb4]),
+        mk("opt-mss", &[2, 4, 5, 0xb4]),
+        mk("opt-ws", &[3, 3, 7]),
+        mk("opt-sackperm", &[4, 2]),
+        mk("opt-sack1", &[5, 10, 0, 0, 0, 1, 0, 0, 0, 2]),
+        mk("opt-sack3", &[5, 26, 0, 0, 0, 1, 0, 0, 0, 2, 0, 0, 0, 3, 0, 0, 0, 4, 0, 0, 0, 5, 0, 0, 0, 6]),
+        mk("opt-sack4", &[5, 34, 0, 0, 0, 1, 0, 0, 0, 2, 0, 0, 0, 3, 0, 0, 0, 4, 0, 0, 0, 5, 0, 0, 0, 6, 0, 0, 0, 7, 0, 0, 0, 8]),
+        mk("opt-timestamp", &[8, 10, 0, 0, 0, 1, 0, 0, 0, 2]),
+        mk("opt-unknown+more", &[0xfe, 4, 1, 2, 1, 1, 0]),
+    ]
+}
+
+fn mk_dhcp(r: &DhcpRepr, pad: usize) -> Vec<u8> {
+    let mut buf = vec![0u8; r.buffer_len() + pad];
+    r.emit(&mut DhcpPacket::new_unchecked(&mut buf[..])).expect("dhcp emit");
+    buf
+}
+
+fn dhcp_repr<'a>(mt: DhcpMessageType, extra: &'a [DhcpOption<'a>]) -> DhcpRepr<'a> {
+    DhcpRepr {
+        message_type: mt,
+        transaction_id: 0x12345678,
+        secs: 3,
+        client_hardware_address: EthernetAddress([0x02, 0, 0, 0, 0, 1]),
+        client_ip: Ipv4Address::new(0, 0, 0, 0),
+        your_ip: Ipv4Address::new(0, 0, 0, 0),
+        server_ip: Ipv4Address::new(0, 0, 0, 0),
+        router: None,
+        subnet_mask: None,
+        relay_agent_ip: Ipv4Address::new(0, 0, 0, 0),
+        broadcast: false,
+        requested_ip: None,
+        client_identifier: None,
+        server_identifier: None,
+        parameter_request_list: None,
+        dns_servers: None,
+        max_size: None,
+        lease_duration: None,
+        renew_duration: None,
+        rebind_duration: None,
+        additional_options: extra,
+    }
+}
+
+fn dhcp_fields(buf: &[u8]) -> Vec<F> {
+    let mut v = vec![f8("dhcp-op", 0), f8("dhcp-htype", 1), f8("dhcp-hlen", 2), f32_("dhcp-magic", 236), f16("dhcp-flags", 10), f8("dhcp-sname0", 34), f8("dhcp-file0", 108)];
+    v.extend(tlv_fields(buf, 240, buf.len(), false, &[0], Some(255), "dhcp-opt-kind", "dhcp-opt-len"));
+    v
+}
+
+fn seeds_dhcp() -> Vec<Seed> {
+    let mut v = vec![];
+    let mut push = |name: &'static str, b: Vec<u8>| {
+        let f = dhcp_fields(&b);
+        v.push(seed(name, b, f));
+    };
+    let mut d = dhcp_repr(DhcpMessageType::Discover, &[]);
+    d.broadcast = true;
+    d.client_identifier = Some(EthernetAddress([0x02, 0, 0, 0, 0, 1]));
+    d.max_size = Some(1432);
+    d.parameter_request_list = Some(&[1u8, 3, 6][..]);
+    push("dhcp-discover", mk_dhcp(&d, 0));
+    let extra = [
+        DhcpOption { kind: 6, data: &[8, 8, 8, 8, 8, 8, 4, 4, 1, 1, 1, 1, 9, 9, 9, 9] },
+        DhcpOption { kind: 58, data: &[0, 0, 1, 0] },
+        DhcpOption { kind: 59, data: &[0, 0, 2, 0] },
+        DhcpOption { kind: 15, data: b"example.org" },
+    ];
+    let mut a = dhcp_repr(DhcpMessageType::Ack, &extra);
+    a.your_ip = Ipv4Address::new(10, 0, 0, 42);
+    a.server_ip = Ipv4Address::new(10, 0, 0, 1);
+    a.router = Some(Ipv4Address::new(10, 0, 0, 1));
+    a.subnet_mask = Some(Ipv4Address::new(255, 255, 255, 0));
+    a.server_identifier = Some(Ipv4Address::new(10, 0, 0, 1));
+    a.lease_duration = Some(3600);
+    push("dhcp-ack", mk_dhcp(&a, 0));
+    let mut o = dhcp_repr(DhcpMessageType::Offer, &[]);
+    o.your_ip = Ipv4Address::new(10, 0, 0, 42);
+    o.server_identifier = Some(Ipv4Address::new(10, 0, 0, 1));
+    o.lease_duration = Some(60);
+    // with server name / boot file strings and trailing padding
+    let mut ob = mk_dhcp(&o, 12);
+    ob[34..38].copy_from_slice(b"srv\0");
+    ob[108..117].copy_from_slice(b"boot.img\0");
+    push("dhcp-offer-sname-file-padding", ob);
+    let mut r = dhcp_repr(DhcpMessageType::Request, &[]);
+    r.requested_ip = Some(Ipv4Address::new(10, 0, 0, 42));
+    r.server_identifier = Some(Ipv4Address::new(10, 0, 0, 1));
+    r.client_identifier = Some(EthernetAddress([0x02, 0, 0, 0, 0, 1]));
+    r.parameter_request_list = Some(&[1u8, 3, 6, 15, 51, 58, 59][..]);
+    push("dhcp-request", mk_dhcp(&r, 0));
+    // header only (no options at all)
+    let n = dhcp_repr(DhcpMessageType::Nak, &[]);
+    let mut nb = mk_dhcp(&n, 0);
+    nb.truncate(240);
+    push("dhcp-header-only", nb);
+    v
+}
+
+fn seeds_dns() -> Vec<Seed> {
+    let mut v = vec![];
+    let counts = vec![f16("dns-flags", 2), f16("dns-qdcount", 4), f16("dns-ancount", 6), f16("dns-nscount", 8), f16("dns-arcount", 10)];
+    // plain query built by the emitter
+    let q = DnsRepr {
+        transaction_id: 0x1234,
+        opcode: DnsOpcode::Query,
+        flags: DnsFlags::RECURSION_DESIRED,
+        question: DnsQuestion { name: b"\x06google\x03com\x00", type_: DnsQueryType::A },
+    };
+    let mut qb = vec![0u8; q.buffer_len()];
+    q.emit(&mut DnsPacket::new_unchecked(&mut qb[..]));
+    v.push(seed("dns-query", qb, {
+        let mut f = counts.clone();
+        f.extend([f8("dns-label-len", 12), f8("dns-label-len", 19), f8("dns-name-end", 23), f16("dns-qtype", 24), f16("dns-qclass", 26)]);
+        f
+    }));
+    // response: question www.example.com A; CNAME answer with backward pointer; A answer
+    let mut r: Vec<u8> = vec![0x12, 0x34, 0x81, 0x80, 0, 1, 0, 2, 0, 0, 0, 0];
+    r.extend_from_slice(b"\x03www\x07example\x03com\x00"); // 12..29
+    r.extend_from_slice(&[0, 1, 0, 1]); // 29..33
+    let a1 = r.len(); // 33
+    r.extend_from_slice(&[0xc0, 0x0c, 0, 5, 0, 1, 0, 0, 0, 60, 0, 6]); // name ptr, CNAME, IN, ttl, rdlen
+    let cname = r.len(); // 45
+    r.extend_from_slice(&[3, b'f', b'o', b'o', 0xc0, 0x10]); // foo.<example.com>
+    let a2 = r.len(); // 51
+    r.extend_from_slice(&[0xc0, cname as u8, 0, 1, 0, 1, 0, 0, 0, 60, 0, 4, 93, 184, 216, 34]);
+    v.push(seed("dns-response-cname-a", r.clone(), {
+        let mut f = counts.clone();
+        f.extend([
+            f8("dns-label-len", 12),
+            f8("dns-label-len", 16),
+            f8("dns-label-len", 24),
+            fbits("dns-pointer", a1, 2, 0, 14, 1),
+            f8("dns-pointer-tag", a1),
+            f16("dns-rtype", a1 + 2),
+            f16("dns-rdlength", a1 + 10),
+            f8("dns-label-len", cname),
+            fbits("dns-pointer", cname + 4, 2, 0, 14, 1),
+            fbits("dns-pointer", a2, 2, 0, 14, 1),
+            f16("dns-rdlength", a2 + 10),
+        ]);
+        f
+    }));
+    // AAAA response with authority and additional records
+    let mut s: Vec<u8> = vec![0xab, 0xcd, 0x84, 0x00, 0, 1, 0, 1, 0, 1, 0, 1];
+    s.extend_from_slice(b"\x01a\x02bc\x00");
+    s.extend_from_slice(&[0, 0x1c, 0, 1]);
+    let n1 = s.len();
+    s.extend_from_slice(&[0xc0, 0x0c, 0, 0x1c, 0, 1, 0, 0, 1, 0, 0, 16]);
+    s.extend_from_slice(&[0x20, 1, 0xd, 0xb8, 0, 0, 0, 0, 0, 0, 0, 0, 0, 0, 0, 1]);
+    let n2 = s.len();
+    s.extend_from_slice(&[0xc0, 0x0e, 0, 2, 0, 1, 0, 0, 1, 0, 0, 5, 2, b'n', b's', 0xc0, 0x0e]);
+    let n3 = s.len();
+    s.extend_from_slice(&[2, b'n', b's', 0xc0, 0x0e, 0, 1, 0, 1, 0, 0, 1, 0, 0, 4, 10, 0, 0, 1]);
+    v.push(seed("dns-response-aaaa-ns-additional", s, {
+        let mut f = counts.clone();
+        f.extend([
+            f8("dns-label-len", 12),
+            f8("dns-label-len", 14),
+            fbits("dns-pointer", n1, 2, 0, 14, 1),
+            f16("dns-rdlength", n1 + 10),
+            fbits("dns-pointer", n2, 2, 0, 14, 1),
+            f16("dns-rdlength", n2 + 10),
+            fbits("dns-pointer", n2 + 15, 2, 0, 14, 1),
+            f8("dns-label-len", n3),
+            fbits("dns-pointer", n3 + 3, 2, 0, 14, 1),
+        ]);
+        f
+    }));
+    // question name is a pointer to itself; answer name points forward, answer cname points at the header
+    let mut l: Vec<u8> = vec![0, 1, 0x81, 0x80, 0, 1, 0, 1, 0, 0, 0, 0];
+    l.extend_from_slice(&[0xc0, 0x0c, 0, 1, 0, 1]); // 12..18
+    l.extend_from_slice(&[0xc0, 0x20, 0, 5, 0, 1, 0, 0, 0, 1, 0, 4, 1, b'x', 0xc0, 0x00]); // 18..34, ptr forward to 32
+    v.push(seed("dns-pointer-self-forward-zero", l, {
+        let mut f = counts.clone();
+        f.extend([
+            fbits("dns-pointer", 12, 2, 0, 14, 1),
+            fbits("dns-pointer", 18, 2, 0, 14, 1),
+            fbits("dns-pointer", 32, 2, 0, 14, 1),
+            f16("dns-rdlength", 28),
+        ]);
+        f
+    }));
+    // header only
+    v.push(seed("dns-header-only", vec![0, 2, 0x81, 0x83, 0, 0, 0, 0, 0, 0, 0, 0], counts));
+    v
+}
+
+fn fc_fields() -> Vec<F> {
+    vec![
+        fbits_le("154-frame-type", 0, 2, 0, 3),
+        fbits_le("154-security", 0, 2, 3, 1),
+        fbits_le("154-pan-id-compression", 0, 2, 6, 1),
+        fbits_le("154-seq-suppression", 0, 2, 8, 1),
+        fbits_le("154-ie-present", 0, 2, 9, 1),
+        fbits_le("154-dst-mode", 0, 2, 10, 2),
+        fbits_le("154-version", 0, 2, 12, 2),
+        fbits_le("154-src-mode", 0, 2, 14, 2),
+        fbits_le("154-frame-control", 0, 2, 0, 16),
+    ]
+}
+
+fn sec_fields(at: usize) -> Vec<F> {
+    vec![
+        fbits("154-sec-level", at, 1, 0, 3, 1),
+        fbits("154-key-id-mode", at, 1, 3, 2, 1),
+        fbits("154-frame-counter-suppressed", at, 1, 5, 1, 1),
+        f8("154-sec-control", at),
+    ]
+}
+
+fn mk_154(r: &Ieee802154Repr, payload: &[u8]) -> Vec<u8> {
+    let mut buf = vec![0u8; r.buffer_len() + payload.len()];
+    let hl = r.buffer_len();
+    r.emit(&mut Ieee802154Frame::new_unchecked(&mut buf[..]));
+    buf[hl..].copy_from_slice(payload);
+    buf
+}
+
+fn seeds_ieee802154() -> Vec<Seed> {
+    let f = fc_fields();
+    let mut v = vec![];
+    v.push(seed("154-data-extended-addrs", vec![
+        0b0000_0001, 0b1100_1100, 0, 0xcd, 0xab, 0, 1, 0, 1, 0, 1, 0, 1, 3, 4, 0, 1, 0, 1, 0, 1, 0, 2,
+    ], f.clone()));
+    v.push(seed("154-data-short-addrs", vec![0x01, 0x98, 0x00, 0x34, 0x12, 0x78, 0x56, 0x34, 0x12, 0xbc, 0x9a], f.clone()));
+    v.push(seed("154-data-short-ext-payload", vec![
+        0x41, 0xd8, 0x01, 0xcd, 0xab, 0xff, 0xff, 0xc7, 0xd9, 0xb5, 0x14, 0x00, 0x4b, 0x12, 0x00, 0x2b, 0x00, 0x00, 0x00,
+    ], f.clone()));
+    v.push(seed("154-secured-level5", vec![
+        0x69, 0xdc, 0x32, 0xcd, 0xab, 0xbf, 0x9b, 0x15, 0x06, 0x00, 0x4b, 0x12, 0x00, 0xc7, 0xd9, 0xb5, 0x14, 0x00, 0x4b, 0x12, 0x00,
+        0x05, 0x31, 0x01, 0x00, 0x00,
+        0x3e, 0xe8, 0xfb, 0x85, 0xe4, 0xcc, 0xf4, 0x48, 0x90, 0xfe, 0x56, 0x66, 0xf7, 0x1c, 0x65, 0x9e, 0xf9,
+        0x93, 0xc8, 0x34, 0x2e,
+    ], {
+        let mut g = f.clone();
+        g.extend(sec_fields(21));
+        g
+    }));
+    // security enabled, short addresses, key identifier mode 1 (1 byte index), level 6 (8 byte MIC)
+    v.push(seed("154-secured-keyid1-level6", vec![
+        0x49, 0x98, 0x07, 0x34, 0x12, 0x78, 0x56, 0xbc, 0x9a,
+        0x0e, 1, 0, 0, 0, 0x42,
+        1, 2, 3, 4, 5, 6,
+        0xa0, 0xa1, 0xa2, 0xa3, 0xa4, 0xa5, 0xa6, 0xa7,
+    ], {
+        let mut g = f.clone();
+        g.extend(sec_fields(9));
+        g
+    }));
+    // key identifier mode 3 (8 byte source + index), level 7 (16 byte MIC), no addresses (2015 frame)
+    v.push(seed("154-secured-keyid3-level7-noaddr", vec![
+        0x09, 0x20, 0x07,
+        0x1f, 9, 0, 0, 0, 1, 2, 3, 4, 5, 6, 7, 8, 0x42,
+        0xb0, 0xb1, 0xb2, 0xb3, 0xb4, 0xb5, 0xb6, 0xb7, 0xb8, 0xb9, 0xba, 0xbb, 0xbc, 0xbd, 0xbe, 0xbf,
+    ], {
+        let mut g = f.clone();
+        g.extend(sec_fields(3));
+        g
+    }));
+    v.push(seed("154-ack+fcs", vec![0x02, 0x00, 0x55, 0x12, 0x34], f.clone()));
+    v.push(seed("154-beacon", vec![0x00, 0x80, 0x01, 0xcd, 0xab, 0x34, 0x12, 0xff, 0xcf, 0x00, 0x00], f.clone()));
+    let r = Ieee802154Repr {
+        frame_type: Ieee802154FrameType::Data,
+        security_enabled: false,
+        frame_pending: false,
+        ack_request: true,
+        sequence_number: Some(1),
+        pan_id_compression: true,
+        frame_version: Ieee802154FrameVersion::Ieee802154,
+        dst_pan_id: Some(Ieee802154Pan(0xabcd)),
+        dst_addr: Some(Ieee802154Address::BROADCAST),
+        src_pan_id: None,
+        src_addr: Some(ll_ext()),
+    };
+    v.push(seed("154-2015-emitted+iphc", mk_154(&r, &[0x7a, 0x33, 0x3a, 0x80, 0x00, 0x12, 0x34, 0, 1, 0, 2]), f.clone()));
+    let r2 = Ieee802154Repr { frame_version: Ieee802154FrameVersion::Ieee802154_2006, pan_id_compression: false, src_pan_id: Some(Ieee802154Pan(0x1234)), dst_addr: Some(ll_ext()), src_addr: Some(ll_short()), ..r };
+    v.push(seed("154-2006-emitted", mk_154(&r2, &[0xc0, 0xff, 0xab, 0xcd, 1, 2, 3]), f.clone()));
+    // smallest secured 2015 frame: no addresses, frame counter suppressed, key id mode 0,
+    // level 1 (4 byte MIC), two payload bytes
+    v.push(seed("154-secured-min-2015", vec![0x09, 0x20, 0x07, 0x21, 0xaa, 0xbb, 0xc0, 0xc1, 0xc2, 0xc3], {
+        let mut g = f;
+        g.extend(sec_fields(3));
+        g
+    }));
+    v
+}
+
+fn iphc_fields() -> Vec<F> {
+    vec![
+        fbits("iphc-dispatch", 0, 2, 13, 3, 1),
+        fbits("iphc-tf", 0, 2, 11, 2, 1),
+        fbits("iphc-nh", 0, 2, 10, 1, 1),
+        fbits("iphc-hlim", 0, 2, 8, 2, 1),
+        fbits("iphc-cid", 0, 2, 7, 1, 1),
+        fbits("iphc-sac", 0, 2, 6, 1, 1),
+        fbits("iphc-sam", 0, 2, 4, 2, 1),
+        fbits("iphc-m", 0, 2, 3, 1, 1),
+        fbits("iphc-dac", 0, 2, 2, 1, 1),
+        fbits("iphc-dam", 0, 2, 0, 2, 1),
+        f16("iphc-base", 0),
+        f8("iphc-cid-byte", 2),
+    ]
+}
+
+fn mk_iphc(r: &SixlowpanIphcRepr, payload: &[u8]) -> Vec<u8> {
+    let hl = r.buffer_len();
+    let mut buf = vec![0u8; hl + payload.len()];
+    r.emit(&mut SixlowpanIphcPacket::new_unchecked(&mut buf[..hl]));
+    buf[hl..].copy_from_slice(payload);
+    buf
+}
+
+fn seeds_iphc() -> Vec<Seed> {
+    let f = iphc_fields();
+    let mut v = vec![];
+    v.push(seed("iphc-elided-addrs-inline-nh", vec![0x7a, 0x33, 0x3a, 0x80, 0, 0x12, 0x34, 0, 1, 0, 2], f.clone()));
+    v.push(seed("iphc-context-elided", vec![0x7e, 0xf7, 0x00, 0xf0, 0x16, 0x2e, 0x22, 0x3d, 0x28, 0xc4], f.clone()));
+    let base = SixlowpanIphcRepr {
+        src_addr: a6s(),
+        ll_src_addr: None,
+        dst_addr: a6d(),
+        ll_dst_addr: None,
+        next_header: SixlowpanNextHeader::Uncompressed(IpProtocol::Udp),
+        hop_limit: 37,
+        ecn: None,
+        dscp: None,
+        flow_label: None,
+    };
+    v.push(seed("iphc-linklocal-64bit-inline", mk_iphc(&base, b"payload!"), f.clone()));
+    let global = SixlowpanIphcRepr {
+        src_addr: Ipv6Address::new(0x2001, 0xdb8, 0, 0, 0, 0, 0, 1),
+        dst_addr: Ipv6Address::new(0x2001, 0xdb8, 0, 0, 0, 0, 0, 2),
+        next_header: SixlowpanNextHeader::Compressed,
+        hop_limit: 64,
+        ..base
+    };
+    v.push(seed("iphc-full-inline-addrs", mk_iphc(&global, &[0xf0, 0x16, 0x2e, 0x22, 0x3d, 0x28, 0xc4, 1, 2]), f.clone()));
+    let short = SixlowpanIphcRepr {
+        src_addr: Ipv6Address::new(0xfe80, 0, 0, 0, 0, 0xff, 0xfe00, 0x1234),
+        dst_addr: Ipv6Address::new(0xff02, 0, 0, 0, 0, 0, 0, 1),
+        hop_limit: 255,
+        ..base
+    };
+    v.push(seed("iphc-16bit-src-mcast8-dst", mk_iphc(&short, b"abc"), f.clone()));
+    let mc32 = SixlowpanIphcRepr { src_addr: Ipv6Address::UNSPECIFIED, dst_addr: Ipv6Address::new(0xff05, 0, 0, 0, 0, 0, 0x0012, 0x3456), hop_limit: 1, ..base };
+    v.push(seed("iphc-unspecified-src-mcast32-dst", mk_iphc(&mc32, b"abc"), f.clone()));
+    let mc48 = SixlowpanIphcRepr { dst_addr: Ipv6Address::new(0xff02, 0, 0, 0, 0, 1, 0xff00, 0x1234), ..base };
+    v.push(seed("iphc-mcast48-dst", mk_iphc(&mc48, b"abc"), f.clone()));
+    // hand-written: TF=00 (4 bytes inline), NH inline, HLIM inline, CID, SAC=1 SAM=01, M=0 DAC=1 DAM=10
+    v.push(seed("iphc-tf00-cid-context-addrs", vec![
+        0x60, 0xd6, 0x12, 0x40, 0x01, 0x23, 0x45, 0x11, 0x2a, 1, 2, 3, 4, 5, 6, 7, 8, 0xab, 0xcd, 0xde, 0xad,
+    ], f.clone()));
+    // TF=01 (3 bytes), M=1 DAC=1 DAM=00 (6 bytes)
+    v.push(seed("iphc-tf01-mcast-context", vec![0x6f, 0x3c, 0xc1, 0x23, 0x45, 1, 2, 3, 4, 5, 6, 0x99], f.clone()));
+    // TF=10 (1 byte), everything else elided
+    v.push(seed("iphc-tf10", vec![0x77, 0x33, 0x2e, 0xe0, 0x00], f));
+    v
+}
+
+fn seeds_nhc_ext() -> Vec<Seed> {
+    let f0 = vec![fbits("nhc-dispatch", 0, 1, 4, 4, 1), fbits("nhc-eid", 0, 1, 1, 3, 1), fbits("nhc-nh", 0, 1, 0, 1, 1), f8("nhc-byte0", 0)];
+    let with = |len_at: usize| {
+        let mut f = f0.clone();
+        f.push(f8("nhc-ext-length", len_at));
+        f
+    };
+    let r = SixlowpanExtHeaderRepr { ext_header_id: SixlowpanExtHeaderId::HopByHopHeader, next_header: SixlowpanNextHeader::Compressed, length: 6 };
+    let mut e = vec![0u8; r.buffer_len() + 6];
+    let hl = r.buffer_len();
+    r.emit(&mut SixlowpanExtHeaderPacket::new_unchecked(&mut e[..hl]));
+    e[hl..].copy_from_slice(&[5, 2, 0, 0, 1, 0]);
+    vec![
+        seed("nhc-routing-nh-inline", vec![0xe2, 0x3a, 0x6, 0x3, 0x0, 0xff, 0x0, 0x0, 0x0], with(2)),
+        seed("nhc-routing-nh-elided", vec![0xe3, 0x06, 0x03, 0x00, 0xff, 0x00, 0x00, 0x00], with(1)),
+        seed("nhc-source-routing", vec![
+            0xe3, 0x1e, 0x03, 0x03, 0x99, 0x30, 0x00, 0x00, 0x05, 0x00, 0x05, 0x00, 0x05, 0x00, 0x05, 0x06, 0x00, 0x06, 0x00, 0x06, 0x00, 0x06,
+            0x02, 0x00, 0x02, 0x00, 0x02, 0x00, 0x02, 0x00, 0x00, 0x00,
+        ], with(1)),
+        seed("nhc-hbh-emitted+next", {
+            e.extend_from_slice(&[0xf0, 0x16, 0x2e, 0x22, 0x3d, 0x28, 0xc4]);
+            e
+        }, with(1)),
+        seed("nhc-empty-ext", vec![0xe1, 0x00], with(1)),
+    ]
+}
+
+fn mk_nhc_udp(src_port: u16, dst_port: u16, payload: &[u8]) -> Vec<u8> {
+    let r = SixlowpanUdpNhcRepr(UdpRepr { src_port, dst_port });
+    let mut buf = vec![0u8; r.header_len() + payload.len()];
+    r.emit(&mut SixlowpanUdpNhcPacket::new_unchecked(&mut buf[..]), &a6s(), &a6d(), payload.len(), |p| p.copy_from_slice(payload), &ChecksumCapabilities::default());
+    buf
+}
+
+fn seeds_nhc_udp() -> Vec<Seed> {
+    let f = vec![fbits("nhc-udp-dispatch", 0, 1, 3, 5, 1), fbits("nhc-udp-c", 0, 1, 2, 1, 1), fbits("nhc-udp-p", 0, 1, 0, 2, 1), f8("nhc-byte0", 0)];
+    vec![
+        seed("nhc-udp-inline-ports", vec![0xf0, 0x16, 0x2e, 0x22, 0x3d, 0x28, 0xc4], f.clone()),
+        seed("nhc-udp-emitted-full-ports", mk_nhc_udp(5678, 8765, b"hello"), f.clone()),
+        seed("nhc-udp-emitted-src-compressed", mk_nhc_udp(0xf011, 8765, b"hello"), f.clone()),
+        seed("nhc-udp-emitted-dst-compressed", mk_nhc_udp(5678, 0xf022, b"hello"), f.clone()),
+        seed("nhc-udp-emitted-both-compressed", mk_nhc_udp(0xf0b1, 0xf0b0, b"hello"), f.clone()),
+        seed("nhc-udp-checksum-elided", vec![0xf7, 0x12, 1, 2, 3], f),
+    ]
+}
+
+fn seeds_frag() -> Vec<Seed> {
+    let f = vec![fbits("frag-dispatch", 0, 1, 3, 5, 1), fbits("frag-datagram-size", 0, 2, 0, 11, 1), f16("frag-tag", 2), f8s("frag-offset", 4, 8), f8("frag-byte0", 0)];
+    let r1 = SixlowpanFragRepr::FirstFragment { size: 307, tag: 0x3f };
+    let mut a = vec![0u8; r1.buffer_len()];
+    r1.emit(&mut SixlowpanFragPacket::new_unchecked(&mut a[..]));
+    a.extend_from_slice(&[0x6e, 0x33, 0x02, 0x35, 0x3d, 0xf0, 0xd2, 0x5f, 0x1b, 0x39, 0xb4, 0x6b]);
+    let r2 = SixlowpanFragRepr::Fragment { size: 307, tag: 0x3f, offset: 17 };
+    let mut b = vec![0u8; r2.buffer_len()];
+    r2.emit(&mut SixlowpanFragPacket::new_unchecked(&mut b[..]));
+    b.extend_from_slice(b"utrum at, tristique");
+    vec![
+        seed("frag-first", a, f.clone()),
+        seed("frag-next", b, f.clone()),
+        seed("frag-first-bare", vec![0xc0, 0xff, 0xab, 0xcd], f.clone()),
+        seed("frag-next-bare", vec![0xe0, 0xff, 0xab, 0xcd, 0xcc], f),
+    ]
+}
+
+// ------------------------------------------------------------------ type table, parts
+
+fn types() -> &'static Vec<TypeDef> {
+    static T: OnceLock<Vec<TypeDef>> = OnceLock::new();
+    T.get_or_init(|| {
+        let t = vec![
+            TypeDef { name: "eth", hdr: 14, seeds: seeds_eth(), run: run_eth },
+            TypeDef { name: "arp", hdr: 28, seeds: seeds_arp(), run: run_arp },
+            TypeDef { name: "ipv4", hdr: 20, seeds: seeds_ipv4(), run: run_ipv4 },
+            TypeDef { name: "ipv6", hdr: 40, seeds: seeds_ipv6(), run: run_ipv6 },
+            TypeDef { name: "ipv6ext", hdr: 8, seeds: seeds_ipv6ext(), run: run_ipv6ext },
+            TypeDef { name: "ipv6hbh", hdr: 6, seeds: seeds_ipv6hbh(), run: run_ipv6hbh },
+            TypeDef { name: "ipv6opt", hdr: 2, seeds: seeds_ipv6opt(), run: run_ipv6opt },
+            TypeDef { name: "ipv6frag", hdr: 6, seeds: seeds_ipv6frag(), run: run_ipv6frag },
+            TypeDef { name: "ipv6routing", hdr: 6, seeds: seeds_ipv6routing(), run: run_ipv6routing },
+            TypeDef { name: "icmpv4", hdr: 8, seeds: seeds_icmpv4(), run: run_icmpv4 },
+            TypeDef { name: "icmpv6", hdr: 8, seeds: seeds_icmpv6(), run: run_icmpv6 },
+            TypeDef { name: "ndiscopt", hdr: 8, seeds: seeds_ndiscopt(), run: run_ndiscopt },
+            TypeDef { name: "mldrec", hdr: 20, seeds: seeds_mldrec(), run: run_mldrec },
+            TypeDef { name: "igmp", hdr: 8, seeds: seeds_igmp(), run: run_igmp },
+            TypeDef { name: "udp", hdr: 8, seeds: seeds_udp(), run: run_udp },
+            TypeDef { name: "tcp", hdr: 20, seeds: seeds_tcp(), run: run_tcp },
+            TypeDef { name: "tcpopt", hdr: 2, seeds: seeds_tcpopt(), run: run_tcpopt },
+            TypeDef { name: "dhcp", hdr: 240, seeds: seeds_dhcp(), run: run_dhcp },
+            TypeDef { name: "dns", hdr: 12, seeds: seeds_dns(), run: run_dns },
+            TypeDef { name: "ieee802154", hdr: 3, seeds: seeds_ieee802154(), run: run_ieee802154 },
+            TypeDef { name: "iphc", hdr: 2, seeds: seeds_iphc(), run: run_iphc },
+            TypeDef { name: "nhc_ext", hdr: 2, seeds: seeds_nhc_ext(), run: run_nhc_ext },
+            TypeDef { name: "nhc_udp", hdr: 5, seeds: seeds_nhc_udp(), run: run_nhc_udp },
+            TypeDef { name: "frag", hdr: 4, seeds: seeds_frag(), run: run_frag },
+        ];
+        // self check of the seed table (a wrong seed is a bug of this module):
+        // every seed must be non-empty and accepted by its own new_checked / parser.
+        // Failures found on unmodified seeds are left to the checks themselves.
+        for ty in &t {
+            assert!(!ty.seeds.is_empty(), "no seeds for {}", ty.name);
+            for s in &ty.seeds {
+                assert!(!s.bytes.is_empty() && s.bytes.len() <= 2048, "bad seed length {}/{}", ty.name, s.name);
+                let (out, _) = collect(ty, &s.bytes);
+                assert!(out.ok, "seed {}/{} is not accepted by new_checked", ty.name, s.name);
+                for f in &s.fields {
+                    assert!(f.off + f.nbytes as usize <= s.bytes.len(), "field {} outside seed {}/{}", f.name, ty.name, s.name);
+                    assert!(f.shift as usize + f.bits as usize <= 8 * f.nbytes as usize, "field {} wider than its bytes", f.name);
+                }
+            }
+        }
+        t
+    })
+}
+
+macro_rules! type_cases {
+    ($($fname:ident => $name:expr),* $(,)?) => {
+        $( fn $fname(src: &mut Src, ctx: &mut Ctx) -> Result<(), Fail> { run_type($name, src, ctx) } )*
+    };
+}
+
+type_cases! {
+    case_eth => "eth", case_arp => "arp", case_ipv4 => "ipv4", case_ipv6 => "ipv6", case_ipv6ext => "ipv6ext",
+    case_ipv6hbh => "ipv6hbh", case_ipv6opt => "ipv6opt", case_ipv6frag => "ipv6frag",
+    case_ipv6routing => "ipv6routing", case_icmpv4 => "icmpv4", case_icmpv6 => "icmpv6",
+    case_ndiscopt => "ndiscopt", case_mldrec => "mldrec", case_igmp => "igmp", case_udp => "udp",
+    case_tcp => "tcp", case_tcpopt => "tcpopt", case_dhcp => "dhcp", case_dns => "dns",
+    case_ieee802154 => "ieee802154", case_iphc => "iphc", case_nhc_ext => "nhc_ext",
+    case_nhc_udp => "nhc_udp", case_frag => "frag",
+}
+
+pub fn prop() -> Prop {
+    let q = 10_000;
+    let t = 1_000_000;
+    let p = |name: &'static str, case: vkit::runner::CaseFn| Part { name, case, quick: q, thorough: t };
+    Prop {
+        id: "C07",
+        parts: vec![
+            p("eth", case_eth),
+            p("arp", case_arp),
+            p("ipv4", case_ipv4),
+            p("ipv6", case_ipv6),
+            p("ipv6ext", case_ipv6ext),
+            p("ipv6hbh", case_ipv6hbh),
+            p("ipv6opt", case_ipv6opt),
+            p("ipv6frag", case_ipv6frag),
+            p("ipv6routing", case_ipv6routing),
+            p("icmpv4", case_icmpv4),
+            p("icmpv6", case_icmpv6),
+            p("ndiscopt", case_ndiscopt),
+            p("mldrec", case_mldrec),
+            p("igmp", case_igmp),
+            p("udp", case_udp),
+            p("tcp", case_tcp),
+            p("tcpopt", case_tcpopt),
+            p("dhcp", case_dhcp),
+            p("dns", case_dns),
+            p("ieee802154", case_ieee802154),
+            p("iphc", case_iphc),
+            p("nhc_ext", case_nhc_ext),
+            p("nhc_udp", case_nhc_udp),
+            p("frag", case_frag),
+            p("seed_mut", seed_mut),
+        ],
+        phases: vec![exhaustive_phase],
+        smoltcp_panic_is_violation: true,
+        rule: "per wire view type: byte strings of length 0..=2048 from (a) random bytes with lengths biased to the header size, (b) a valid packet truncated at a drawn offset, (c) a valid packet with 1-3 length/offset/count/mode fields set to boundary values or byte noise; plus the exhaustive sweep of every truncation and every single-byte substitution (6 boundary values, first 64 bytes) of every seed packet. On new_checked Ok every accessor applicable to the packet's own message type, Repr::parse (default and ignored checksum capabilities), Display and PrettyPrinter are called under catch_unwind. A case is non-trivial when new_checked returned Ok; distinct by digest of the bytes per type",
+        assumptions: vec![
+            "accessors documented as valid only for another message type / option type, or documented to panic (Ipv6Option::data_len on Pad1), are not called; 802.15.4 security getters only with the security-enabled bit",
+            "verify_checksum/Repr::parse of UDP and TCP are called with source and destination of the same address family",
+            "a genuinely non-terminating call inside smoltcp would hang the run rather than be reported (iteration caps and the 5 s limit only see calls that return)",
+            "wire types behind cargo features that the harness build does not enable (proto-rpl, proto-ipsec-ah, proto-ipsec-esp) are not exported and not covered",
+        ],
+    }
+}
+
